@@ -65,16 +65,16 @@ type Sim struct {
 	Coalesce time.Duration
 	stallDen int
 	stallMax time.Duration
-	T       *Tape
-	Pol     Policy
-	start   time.Time
-	wake    chan struct{}
-	q       eventHeap
-	qmu     sync.Mutex
-	seq     uint64
-	Step    int
-	MaxStep int
-	MaxTime time.Duration
+	T        *Tape
+	Pol      Policy
+	start    time.Time
+	wake     chan struct{}
+	q        eventHeap
+	qmu      sync.Mutex
+	seq      uint64
+	Step     int
+	MaxStep  int
+	MaxTime  time.Duration
 
 	digest    uint64 // running FNV of the event log
 	sig       uint64 // schedule signature (kinds only)
